@@ -45,12 +45,18 @@ TEMPLATES = {
     "tmpl/parent.zot": "# Template parent\n\n## Child {{ name }}\n##\n## ^ = [[{{ parent }}]]\n\n################################ Up\n",
     "tmpl/plain.zot": "# Template plain\n\n## Plain page\n\n- a template note\n\n",
     "tmpl/wide.zot": "# Template wide\n\n## Wide {{ date }}\n\n################################ W\n",
+    # two templates that share their basename (zorg builds templates into one
+    # scratch directory keyed by basename)
+    "tmpl/work/log.zot": "# Work log template\n\n## WORK LOG {{ name }}\n##\n## ^ = [[work_index]]\n\n################################ Work\n",
+    "tmpl/home/log.zot": "# Home log template\n\n## HOME LOG {{ name }}\n##\n## ^ = [[home_index]]\n\n################################ Home\n",
 }
 
 PATTERNS = [
     [r"^logs/(?P<date>[0-9]{4}[01][0-9][0-3][0-9])\.zo$", "tmpl/date.zot"],
     [r"^logs/(?P<date>[0-9]+)\.zo$", "tmpl/wide.zot"],
     [r"^logs/.*\.zo$", "tmpl/plain.zot"],
+    [r"^work/(?P<name>[a-z]+)\.zo$", "tmpl/work/log.zot"],
+    [r"^home/(?P<name>[a-z]+)\.zo$", "tmpl/home/log.zot"],
     [r"^(?P<name>[a-z]+)/(?P<sub>[a-z0-9]+)\.zo$", "tmpl/name.zot"],
     [r"^kids/(?P<name>[a-z]+)\.zo$", "tmpl/parent.zot"],
     [r".*_now\.zo$", "tmpl/today.zot"],
@@ -60,6 +66,7 @@ PATTERNS = [
 TARGETS = [
     "logs/20240229", "logs/20241231", "logs/20240101", "logs/20241339", "logs/123", "logs/abc", "kids/tom", "kids/ann",
     "proj/x1", "proj/alpha", "deep/er/path", "solo", "a_now", "logs/x_now", "nomatch/UPPER", "NoMatch", "kids/tom.zo",
+    "work/standup", "home/standup", "work/retro", "home/chores",
 ]  # fmt: skip
 
 
@@ -70,7 +77,9 @@ def gen_case(rng: random.Random, tier: str) -> dict:
     patterns = [p for p in PATTERNS if rng.random() < 0.75]
     if rng.random() < 0.5:
         rng.shuffle(patterns)
-    targets = rng.sample(TARGETS, k=rng.randint(2, 4))
+    targets = rng.sample(TARGETS, k=rng.randint(2, 5))
+    if rng.random() < 0.35:
+        targets = list(dict.fromkeys(targets + ["work/" + rng.choice(["standup", "retro"]), "home/" + rng.choice(["standup", "chores"])]))
     # a page with one link per target for `action open`
     lines = ["# Links page", ""]
     for i, t in enumerate(targets):
@@ -88,7 +97,7 @@ def gen_case(rng: random.Random, tier: str) -> dict:
                 st["vars"] = {rng.choice(["k", "name", "date", "parent", "sub"]): rng.choice(["v1", "20240315", "zed", "19991231"])}
             steps.append(st)
         elif x < 0.55:
-            steps.append({"op": "edit", "targets": [t] + ([rng.randrange(len(targets))] if rng.random() < 0.3 else [])})
+            steps.append({"op": "edit", "targets": [t] + [rng.randrange(len(targets)) for _ in range(rng.choice([0, 0, 1, 2, 3]))]})
         elif x < 0.68:
             steps.append({"op": "open", "target": t})
         elif x < 0.76:
@@ -241,6 +250,10 @@ def execute(case: dict, scratch: str) -> dict:
             if v:
                 return rec.result(v)
             rec.probe("entry:edit")
+            used = {model_choice(patterns, target_rel(t), None, {})[0] for t in ts}
+            used.discard(None)
+            rec.probe("one-process-renders-templates-with-equal-basename", int(len({os.path.basename(u) for u in used}) < len(used)))
+            rec.probe("one-process-initialises-several-targets", int(len(ts) > 1))
             continue
         if op == "move":
             t = case["targets"][st["target"] % len(case["targets"])]
